@@ -8,6 +8,7 @@ import (
 	"time"
 
 	"github.com/pion/logging"
+	"github.com/pion/turn/v5/internal/verifhook"
 )
 
 const DefaultPermissionTimeout = time.Duration(5) * time.Minute
@@ -34,6 +35,7 @@ func NewPermission(addr net.Addr, log logging.LeveledLogger, timeout time.Durati
 
 func (p *Permission) start(lifetime time.Duration) {
 	p.lifetimeTimer = time.AfterFunc(lifetime, func() {
+		verifhook.At("perm.expire", p)
 		p.allocation.RemovePermission(p.Addr)
 	})
 }
